@@ -1,0 +1,60 @@
+//go:build verif
+
+// Contracts for property C09 (codec slice): the bit-level coders used by the compressed formats are
+// mutually inverse for all inputs - zig-zag, bit interleaving (through the two literal lookup tables),
+// the 2nd-derivative coder (encoder and decoder stay in lock step), face-run packing, and the level
+// shift of siTitoPiQi. Byte-stream framing and the float centre detection are not decided.
+// Comment-only; build tag verif.
+
+package s2
+
+//@ property C09
+
+//@ lemma zigzagRoundTrip(x int32)
+//@   ensures [decode-encode] zigzagDecode(zigzagEncode(x)) == x
+
+//@ lemma zigzagRoundTripU(u uint32)
+//@   ensures [encode-decode] zigzagEncode(zigzagDecode(u)) == u
+
+//@ lemma zigzagSmall(x int32)
+//@   ensures [magnitude] x >= 0 ==> zigzagEncode(x) == uint32(x)*2
+//@   ensures [negative] x < 0 ==> zigzagEncode(x) == uint32(-(x+1))*2+1
+
+//@ func deinterleaveUint32(code uint64) (uint32, uint32)
+//@   ensures [inverse] interleaveUint32(result0, result1) == code
+
+//@ func interleaveUint32(x, y uint32) uint64
+//@   ensures [bit0] result&1 == uint64(x&1) && (result>>1)&1 == uint64(y&1)
+//@   ensures [bit31] (result>>62)&1 == uint64((x>>31)&1) && (result>>63)&1 == uint64((y>>31)&1)
+
+//@ lemma interleaveRoundTrip(x uint32, y uint32)
+//@   ensures [x] vcFirst(deinterleaveUint32(interleaveUint32(x, y))) == x
+//@   ensures [y] vcSecond(deinterleaveUint32(interleaveUint32(x, y))) == y
+
+// ---- n-th derivative coder, n <= 2 as used by the point compression (derivativeEncodingOrder = 2)
+
+//@ func (c *nthDerivativeCoder) encode(k int32) int32
+//@   requires vcCoderOK(c)
+//@   modifies c.m, c.memory
+//@   ensures vcCoderOK(c)
+//@   loop 1 (i int, k int32): invariant 0 <= i && i <= c.m && vcCoderOK(c)
+
+// encoder and decoder that start in the same state return to the same state, and decode undoes encode
+//@ lemma derivativeLockStep(enc *nthDerivativeCoder, dec *nthDerivativeCoder, k int32)
+//@   inlinecalls
+//@   unrollcalls 2
+//@   requires enc != nil && dec != nil && enc != dec && enc.n == dec.n && 0 <= enc.n && enc.n <= 2 && enc.m == dec.m && 0 <= enc.m && enc.m <= enc.n && enc.memory == dec.memory && (enc.m <= 0 ==> enc.memory[0] == 0) && (enc.m <= 1 ==> enc.memory[1] == 0)
+//@   ensures [round-trip] dec.decode(enc.encode(k)) == k
+//@   ensures [lock-step] enc.m == dec.m && enc.memory[0] == dec.memory[0] && enc.memory[1] == dec.memory[1]
+//@   ensures [unused-zero] (enc.m <= 0 ==> enc.memory[0] == 0) && (enc.m <= 1 ==> enc.memory[1] == 0)
+
+// ---- face runs: coded = 6*count + face
+
+//@ lemma faceRunPacking(face int, count int)
+//@   requires 0 <= face && face < 6 && 0 < count && count < 1<<60
+//@   ensures [face] int((NumFaces*uint64(count)+uint64(face)) % NumFaces) == face
+//@   ensures [count] int((NumFaces*uint64(count)+uint64(face)) / NumFaces) == count
+
+//@ func siTitoPiQi(siTi uint32, level int) uint32
+//@   requires 0 <= level && level <= MaxLevel
+//@   ensures [range] uint64(result) < uint64(1)<<uint(level)
